@@ -45,6 +45,7 @@ def _compile(tpl):
     parts = tpl.split("{}")
     return re.compile("^" + "(.*)".join(map(re.escape, parts)) + "$", re.S)
 RULES = [(k, _compile(t)) for k, t in TEMPLATES.items()]
+JSON_NAMES = {"null", "boolean", "integer", "number", "string", "array", "object"}
 RE_TYPE = re.compile(r"^expected type (\w+), found (\w+)$")
 RE_REQ = re.compile(r"^missing property \(required by (\[.*\])\)$")
 
@@ -59,7 +60,7 @@ def parse_param(kind, s):
 
 def rule_proto(msg):
     m = RE_TYPE.match(msg)
-    if m: return ["type", m.group(1), m.group(2)]
+    if m: return ["type", m.group(1), m.group(2) if m.group(2) in JSON_NAMES else None]
     if msg == "missing property": return ["missing"]
     if msg == "unexpected property": return ["unexpected"]
     m = RE_REQ.match(msg)
